@@ -314,8 +314,8 @@ def _cauchy_geom(const, grad, curv, xl, xu, delta, debug):
     Same as `bound_constrained_cauchy_step` without the absolute value.
     """
     # Calculate the initial active set.
-    fixed_xl = (xl < 0.0) & (grad > 0.0)
-    fixed_xu = (xu > 0.0) & (grad < 0.0)
+    fixed_xl = (xl < 0.0) & (grad < 0.0)
+    fixed_xu = (xu > 0.0) & (grad > 0.0)
 
     # Calculate the Cauchy step.
     cauchy_step = np.zeros_like(grad)
